@@ -1,17 +1,20 @@
 """C06 — every gateway wire format round-trips and obeys its fixed framing.
-Theorems: Props/C06.lean over Model/Wire.lean (T3) with header/checksum from T2."""
+Theorems: Props/C06.lean over Model/Wire.lean (T3) with header/checksum from T2 (frame level); Props/C06Msg.lean over
+Model/Encoder.lean + Model/Decoder.lean + the T1 tables (message level: the wire trip of the encoder's packets is transparent)."""
 import random
 
 import common
 import harness
 import wirecorr
 
-PROP_FILES = ["N2k/Props/C06.lean"]
-LEAN_TARGETS = ["N2k.Props.C06"]
-SUITE_NAMES = ["wire-encoders", "wire-decoders"]
-ASSUMPTIONS = ["frame-level statement: identifiers < 2^32, at most 8 data bytes per frame; the message-level round trip composes these theorems with C05 (identifier), C02/C09 (payload) and C03 (fast-packet frames)",
+PROP_FILES = ["N2k/Props/C06.lean", "N2k/Props/C06Msg.lean"]
+LEAN_TARGETS = ["N2k.Props.C06", "N2k.Props.C06Msg"]
+SUITE_NAMES = ["wire-encoders", "wire-decoders", "encoder-messages"]
+ASSUMPTIONS = ["frame level: identifiers < 2^32, at most 8 data bytes per frame; message level (C06_message_trip_*): Single/Fast definitions, canonical addressing (PDU1 PGN with low byte 0, broadcast PGN to 255), the decoder's record does not already hold the counter; that the payload decodes back to the field values is C09/C02",
+               "Yacht Devices at message level is covered by the correspondence and the monitor, not by a theorem (the line needs the gateway's timestamp/direction tokens)",
                "text input on the strict grammar; the `A<sec>.<ms>` / `hh:mm:ss.mmm R` tokens the gateways prepend are supplied by the harness"]
-TRUSTED_EXTRA = ["C06: Model/Wire.lean hand model of the four encoders and five decoders, tied by differential runs"]
+TRUSTED_EXTRA = ["C06: Model/Wire.lean hand model of the four encoders and five decoders, tied by differential runs",
+                 "C06: Model/Encoder.lean hand model of NMEA2000Encoder._encode and the encode_* wrappers, tied by the encoder-messages suite (every encodable definition through the real encoder)"]
 
 
 def problem_relevant(p):
@@ -19,7 +22,22 @@ def problem_relevant(p):
 
 
 def correspondence(ctx):
-    return wirecorr.encode_suites(ctx) + wirecorr.decode_suites(ctx)
+    import enccorr
+    return wirecorr.encode_suites(ctx) + wirecorr.decode_suites(ctx) + enccorr.suite_messages(ctx)
+
+
+def standing_search(ctx):
+    """the message-level trip on the real code runs on every check (cheap): every encodable definition x four formats"""
+    global LAST_SEARCH_CANDIDATES
+    import enccorr
+    hits, n = enccorr.monitor_trips(ctx)
+    LAST_SEARCH_CANDIDATES = n
+    seen, out = set(), []
+    for h in hits:
+        if h["key"] not in seen:
+            seen.add(h["key"])
+            out.append(h)
+    return out
 
 
 def _monitor(ctx, n):
@@ -80,15 +98,20 @@ def _monitor(ctx, n):
 
 def search(ctx, broken, corr_broken):
     global LAST_SEARCH_CANDIDATES
-    LAST_SEARCH_CANDIDATES = 4000
+    out = []
     hit = _monitor(ctx, 4000)
     if hit:
-        return [{"key": f"C06/{hit['format']}/{hit['pgn']}-{hit['src']}-{hit['dst']}-{hit['prio']}-{hit['frame']}", "what": f"{hit}",
-                 "replay": {"kind": "wire-roundtrip", **hit}}]
-    return []
+        out.append({"key": f"C06/{hit['format']}/{hit['pgn']}-{hit['src']}-{hit['dst']}-{hit['prio']}-{hit['frame']}", "what": f"{hit}",
+                    "replay": {"kind": "wire-roundtrip", **hit}})
+    more = standing_search(ctx)
+    LAST_SEARCH_CANDIDATES = 4000 + (LAST_SEARCH_CANDIDATES or 0)
+    return out + more
 
 
 def replay(rp):
+    if rp.get("kind") == "message-trip":
+        import enccorr
+        return enccorr.replay_trip(rp)
     if rp.get("kind") != "wire-roundtrip":
         return False, "not an input replay: " + str(rp.get("broken_theorems") or rp.get("broken_correspondence"))[:500]
     hit = _monitor({"seed": rp.get("seed", 0)}, 4000)
